@@ -30,6 +30,8 @@ void VS_TRACE(struct S_tracer *self, char *file, unsigned long line, struct vp_s
 void VS_DTOR_COND(struct COND *self) { COND_DTOR(self); }
 void VS_DTOR_SEFF(struct SEFF *self) { SEFF_DTOR(self); }
 void VS_DTOR_RETH(struct RETH *self) { }
+/* the user's RETURN / THROW expression inside the real return_handler_t::call */
+int RETFN_CALL(struct RETFN *self, struct vp_tuple_vp_refw_int *p) { struct RETHT *h = (struct RETHT *)((char *)self - __builtin_offsetof(struct RETHT, func)); ev(VP_EV_RET, &h->_b0, 0); if (h->_b0.g_throws) vp_exc = h->_b0.g_throws; return h->_b0.g_value; }
 /* dispatch defaults that no object of this world can reach */
 #define UNREACHABLE_STUB(ret, name, params, retval) ret name params { __CPROVER_assert(0, "DISPATCH: virtual call on an object of unknown dynamic type"); __CPROVER_assume(0); return retval; }
 UNREACHABLE_STUB(_Bool, VS_CMB_MATCHES, (struct CMB *self, struct vp_tuple_vp_refw_int *p), 0)
@@ -446,12 +448,12 @@ void w_trace_text(void)
     if (m->t[k].kind == VP_T_INT) { if (n_int < 3) ints[n_int] = (long)m->t[k].v; if (n_int == 1) arg_pos = k; n_int++; }
     if (m->t[k].kind == VP_T_CSTR && m->t[k].p == (void *)&vp_stdexc_obj) what = 1;
   }
-  for (int k = 0; k < VP_TOK_CAP; k++) if (k < m->n && arg_pos >= 0 && k > arg_pos + 1) after++;
   __CPROVER_assert(m->n >= 1 && m->t[0].kind == VP_T_CSTR && m->t[0].p == nm_name[c], "[C17] POST trace.record_starts_with_the_handling_expectation_text");
   __CPROVER_assert(n_int >= 2 && ints[0] == 1 && ints[1] == (long)x, "[C17] POST trace.record_carries_the_actual_arguments");
-  if (!thrown) __CPROVER_assert(n_int == 3 && ints[2] == (long)ret && !what, "[C17] POST trace.record_carries_the_returned_value");
-  if (thrown == VP_EXC_USER_STD) __CPROVER_assert(n_int == 2 && what, "[C17] POST trace.record_carries_what_of_a_std_exception");
-  if (thrown == VP_EXC_USER_OTHER) __CPROVER_assert(n_int == 2 && !what && after >= 1, "[C17] POST trace.non_std_exception_is_noted_as_unknown");
+  /* m->lit: the last string literal of the library text in the record (" -> ", "threw exception: what() = ", "threw unknown exception\n") */
+  if (!thrown) __CPROVER_assert(n_int == 3 && ints[2] == (long)ret && !what && m->lit != 0 && m->lit[1] == '-' && m->lit[2] == '>', "[C17] POST trace.record_carries_the_returned_value");
+  if (thrown == VP_EXC_USER_STD) __CPROVER_assert(n_int == 2 && what && m->lit != 0 && m->lit[0] == 't' && m->lit[6] == 'e', "[C17] POST trace.record_carries_what_of_a_std_exception");
+  if (thrown == VP_EXC_USER_OTHER) __CPROVER_assert(n_int == 2 && !what && m->lit != 0 && m->lit[0] == 't' && m->lit[6] == 'u', "[C17] POST trace.non_std_exception_is_noted_as_unknown");
   __CPROVER_assert(thrown != VP_EXC_USER_STD, "REACH trace.std_exception"); __CPROVER_assert(thrown != VP_EXC_USER_OTHER, "REACH trace.unknown_exception");
   __CPROVER_assert(0, "REACH! trace_text.end");
 }
